@@ -1,6 +1,7 @@
 ---------------------------- MODULE HttpParseTrace ----------------------------
 (* Binding B for HttpParse.tla: a recorded execution of a real request / response parser.      *)
-(* Header event  {"ev": "Init", "kind": "req"|"resp", "n": number of messages, "wire": bytes}; *)
+(* Header event  {"ev": "Init", "kind": "req"|"resp", "n": number of messages, "wire": bytes,  *)
+(*                "heads": [is the jth message the answer to a HEAD request]};                  *)
 (* then          {"ev": "Deliver", "k": n, "obs": o} | {"ev": "Parse"|"ParseAgain"|"Close"|    *)
 (*               "Again", "obs": o}                                                            *)
 (* where o is what the harness saw of the parser after the call:                                *)
@@ -14,6 +15,7 @@ tvars == <<vars, l>>
 TrWire(i) == EvAt(i, 1).wire
 TrKind(i) == EvAt(i, 1).kind
 TrMsgs(i) == EvAt(i, 1).n
+TrHead(i, j) == EvAt(i, 1).heads[j]
 
 Ev == EvAt(sc, l)
 ToSet(s) == {s[i] : i \in 1..Len(s)}
